@@ -22,6 +22,8 @@ CORE = {
         'kind=read,ctor=std,calls=N4,ev=d4,closers=1',
         'kind=read,ctor=std,calls=N3t,ev=d3,closers=0',
         'kind=read,ctor=std,calls=N3t,ev=d2.h,closers=0',
+        # the n-th byte and the peer's close reach the poller together while the (timed) reader is blocked: the woken reader must return the data
+        'kind=read,ctor=std,calls=N3t,ev=d2.d1.h,closers=0',
         'kind=read,ctor=std,calls=N2,ev=d1.d1,closers=0',
         'kind=read,ctor=fd,calls=N2t.N1x,ev=h,closers=1',
     ],
@@ -53,7 +55,7 @@ def product_space(prop):
     out = []
     if prop == 'C07':
         calls = ['N3', 'N3t', 'N3d', 'N3x', 'N2.N2', 'N2t.N2t', 'P3t.N3', 'N1.Z.N3t', 'S2.B2t', 'N4t.N1', 'Y.Yt.Y', 'R8.R8t', 'G3x.N3', 'L2.N2d', 'N5t.P1x.N1']
-        evs = ['-', 'd3', 'd2.d1', 'd1.d1.d1', 'h', 'd3.h', 'd2.h', 'x3', 'd1.x2', 'd4.d4']
+        evs = ['-', 'd3', 'd2.d1', 'd1.d1.d1', 'h', 'd3.h', 'd2.h', 'd2.d1.h', 'x3', 'd1.x2', 'd4.d4']
         for ctor, c, ev, cl in itertools.product(['std', 'fd'], calls, evs, [0, 1, 2]):
             out.append('kind=read,ctor=%s,calls=%s,ev=%s,closers=%d' % (ctor, c, ev, cl))
     else:
